@@ -5,6 +5,8 @@ import (
 	"fmt"
 	"sort"
 	"strings"
+
+	"github.com/jcmturner/gokrb5/v8/iana/errorcode"
 	"sync"
 	"testing"
 	"time"
@@ -52,6 +54,7 @@ type Case struct {
 	N       int     `json:"n,omitempty"`       // goroutines (stress)
 	Rounds  int     `json:"rounds,omitempty"`
 	EType   int32   `json:"etype,omitempty"`
+	Kind    string  `json:"kind,omitempty"`  // volume: same-client | same-client-other-services | many-clients
 	Names   int     `json:"names,omitempty"` // which pair of client names and of service names the indices 0/1 stand for (see namePairs)
 }
 
@@ -125,6 +128,10 @@ var discarded struct {
 func Eval(c Case) evid.Verdict {
 	return evid.SafeEval(func() evid.Verdict {
 		switch c.Mode {
+		case "volume":
+			return evalVolume(c)
+		case "apreq-settings":
+			return evalAPReqSettings(c)
 		case "stress-apreq":
 			return evalStressAPReq(c)
 		case "stress-cache":
@@ -256,6 +263,103 @@ func judge(c Case, base time.Time, hist []rec, trace []string) evid.Verdict {
 				return evid.Fail("false-replay", "authenticator (client%d, t%d, svc host%d) was reported as a replay although it had never been accepted\n%s", k.c, k.t, k.s, render())
 			}
 		}
+	}
+	return evid.Pass()
+}
+
+// ---------------------------------------------------------------------------------------------
+// volume: an accepted authenticator must stay refused however many others are verified in between
+
+func evalVolume(c Case) evid.Verdict {
+	cache := service.VerifNewCache()
+	base := time.Now().UTC()
+	np := namePairs[c.Names%len(namePairs)]
+	mk := func(client []string, svc []string, us int) (types.PrincipalName, types.Authenticator) {
+		ct := base.Add(time.Duration(us) * time.Microsecond)
+		return types.PrincipalName{NameType: 2, NameString: append([]string{}, svc...)},
+			types.Authenticator{AVNO: 5, CRealm: "EXAMPLE.COM", CName: types.PrincipalName{NameType: 1, NameString: append([]string{}, client...)},
+				CTime: ct.Truncate(time.Second), Cusec: ct.Nanosecond() / 1000}
+	}
+	sn, x := mk(np.c0, np.s0, 0)
+	if cache.IsReplay(sn, x) {
+		return evid.Fail("false-replay", "the first authenticator ever presented to a new cache was called a replay")
+	}
+	for i := 1; i <= c.N; i++ {
+		var s2 types.PrincipalName
+		var a types.Authenticator
+		switch c.Kind {
+		case "same-client":
+			s2, a = mk(np.c0, np.s0, i)
+		case "same-client-other-services":
+			s2, a = mk(np.c0, []string{"svc", fmt.Sprintf("host%d", i)}, 0)
+		default: // many-clients
+			s2, a = mk([]string{fmt.Sprintf("user%d", i)}, np.s0, i%1000)
+		}
+		if cache.IsReplay(s2, a) {
+			return evid.Fail("false-replay", "volume %s: authenticator %d of %d, never presented before, was called a replay", c.Kind, i, c.N)
+		}
+		if i%1000 == 0 {
+			cache.ClearOldEntries(time.Duration(c.SkewMs) * time.Millisecond)
+		}
+	}
+	if time.Since(base) > time.Duration(c.SkewMs)*time.Millisecond/2 {
+		return evid.Pass() // far too slow a machine: the window has moved, not judged
+	}
+	if !cache.IsReplay(sn, x) {
+		return evid.Fail("double-accept:after-volume:"+c.Kind, "an authenticator was accepted, %d other authenticators (%s) were verified within the skew window, and the first one was accepted again", c.N, c.Kind)
+	}
+	return evid.Pass()
+}
+
+// apreq-settings: the same AP-REQ octets presented to VerifyAPREQ under two Settings values of one process
+
+var settingsPairs = []struct {
+	name         string
+	skew1, skew2 int // seconds, 0 = default
+	pac1, pac2   bool
+}{
+	{"same", 0, 0, true, true},
+	{"skew-default-then-2m", 0, 120, true, true},
+	{"skew-default-then-10m", 0, 600, true, true},
+	{"skew-10m-then-default", 600, 0, true, true},
+	{"skew-1h-then-5m", 3600, 300, true, true},
+	{"skew-2m-then-1h", 120, 3600, false, false},
+	{"pac-decoding-on-then-off", 0, 0, true, false},
+	{"pac-decoding-off-then-on", 0, 0, false, true},
+	{"pac-decoding-off-twice", 0, 0, false, false},
+}
+
+func evalAPReqSettings(c Case) evid.Verdict {
+	c01.SamplePAC()
+	sp := settingsPairs[c.N%len(settingsPairs)]
+	cs := c01.Base(c.EType, uint64(c.Rounds)*104729+uint64(c.N), "HTTP/svc.example.com")
+	m, err := cs.Mint(c01.SamplePAC())
+	if err != nil {
+		return evid.Fail("harness", "mint: %v", err)
+	}
+	kt := keytab.New()
+	if err := kt.Unmarshal(m.Keytab); err != nil {
+		return evid.Fail("harness", "keytab: %v", err)
+	}
+	present := func(skew int, pac bool) (bool, error) {
+		var ap messages.APReq
+		if err := ap.Unmarshal(m.APReq); err != nil {
+			return false, err
+		}
+		c2 := cs
+		c2.SkewSec, c2.DecodePAC = skew, pac
+		ok, _, err := service.VerifyAPREQ(&ap, c2.Settings(kt))
+		return ok, err
+	}
+	if ok, err := present(sp.skew1, sp.pac1); !ok {
+		return evid.Fail("false-replay", "a fresh valid AP-REQ was refused under the first settings (%s): %v", sp.name, err)
+	}
+	ok, err := present(sp.skew2, sp.pac2)
+	if ok {
+		return evid.Fail("double-accept:other-settings:"+strings.SplitN(sp.name, "-", 2)[0], "the same AP-REQ octets were accepted twice by one process, the second time under other Settings (%s)", sp.name)
+	}
+	if ke, isK := err.(messages.KRBError); !isK || ke.ErrorCode != errorcode.KRB_AP_ERR_REPEAT {
+		return evid.Fail("replay-wrong-error", "second presentation (%s) refused with %v, want KRB_AP_ERR_REPEAT", sp.name, err)
 	}
 	return evid.Pass()
 }
@@ -469,7 +573,7 @@ func drawTimed(t *rapid.T) Case {
 
 func TestProp(t *testing.T) {
 	r := evid.Start(t, "C02", "exploration")
-	for _, k := range []string{"seq", "timed", "sched", "sched-dfs", "stress", "history"} {
+	for _, k := range []string{"seq", "timed", "sched", "sched-dfs", "stress", "history", "volume", "settings"} {
 		evid.Reg(r, k, Eval)
 	}
 	if r.Replay() {
@@ -598,6 +702,31 @@ func TestProp(t *testing.T) {
 		r.Sample("timed-drawn", c)
 		r.Violation("timed", c, Eval(c))
 	})
+
+	// volume: thousands of other authenticators between an acceptance and the replay
+	r.Rule("volume: an authenticator is accepted, then N others are verified inside the skew window (the same client at other microseconds / the same client towards N services / N other clients), clean-ups in between, then the first one again; N in {1500, 5000} (thorough: up to 150000)")
+	vols := []int{1500, 5000}
+	if r.Thorough() {
+		vols = append(vols, 20000, 70000, 150000)
+	}
+	for vi, n := range vols {
+		for ki, kind := range []string{"same-client", "same-client-other-services", "many-clients"} {
+			c := Case{Mode: "volume", SkewMs: 300000, N: n, Kind: kind, Names: (vi + ki + int(r.Seed())) % len(namePairs)}
+			r.Count(ntKey(c)+kind+fmt.Sprint(n), "mode:volume", "volume:"+kind)
+			r.Sample("volume/"+kind, c)
+			r.Violation("volume", c, Eval(c))
+		}
+	}
+	// the same AP-REQ octets under two Settings values of one process
+	r.Rule("settings: the same AP-REQ octets presented to service.VerifyAPREQ twice under two Settings values (other MaxClockSkew, PAC decoding on/off): the second presentation must be refused as a replay")
+	for et := range ref.ETypes {
+		for pi := range settingsPairs {
+			c := Case{Mode: "apreq-settings", N: pi, Rounds: int(r.Seed())*100 + et, EType: ref.ETypes[et]}
+			r.Count(ntKey(c)+fmt.Sprint(pi, et), "mode:apreq-settings", "settings:"+settingsPairs[pi].name)
+			r.Sample("settings/"+settingsPairs[pi].name, c)
+			r.Violation("settings", c, Eval(c))
+		}
+	}
 
 	// (a) schedules over the yield points
 	type cfg struct {
